@@ -394,6 +394,63 @@ def gen_cases(ctx):
     for f in ["c2147483639", "c2147483638x", "c2147483632i7", "c0000000012", "c214748364c9", "!0008i4", "i016", "I0000000001",
               "!00016 i1 i016", "c1073741823c1073741823x", "c99 X i8", "s016", "c2147483639 !8 Xj"]:
         add("pack", "packsize %s" % X(f))
+    # (vi-b) string.format: integer / character / string conversions (model + spec voices), floats differential
+    ivals = [0, 1, -1, 7, -7, 8, 9, 10, 65, 255, 256, -255, 12345, -12345, 2**31 - 1, 2**31, -2**31, 2**32 + 65, -(2**32) - 191,
+             MAXINT, MININT, MININT + 1, MAXINT - 1, 0x0123456789abcdef]
+    allowed = {"d": "-+0 ", "i": "-+0 ", "u": "-0", "o": "-#0", "x": "-#0", "X": "-#0", "c": "-", "s": "-"}
+    widths = ["", "1", "5", "12", "20", "99"]
+    precs = ["", ".", ".0", ".1", ".5", ".20", ".99"]
+
+    def subsets(fl):
+        out = [""]
+        for ch in fl:
+            out += [x + ch for x in out]
+        return out
+    fmt_lines = []
+    for cv, fl in allowed.items():
+        for fs in subsets(fl):
+            for w in widths:
+                for pr in (precs if cv != "c" else [""]):
+                    spec = "%" + fs + w + pr + cv
+                    if cv == "s":
+                        for sv in (b"", b"a", b"hello", b"x" * 99, b"y" * 100, b"z" * 150):
+                            fmt_lines.append("fmts %s %s" % (X(spec), X(sv)))
+                        fmt_lines.append("fmti %s %d" % (X(spec), rng.choice(ivals)))
+                    else:
+                        for v in ([0, 1, -1] + rng.sample(ivals, 3)):
+                            fmt_lines.append("fmti %s %d" % (X(spec), v))
+    if not ctx.thorough:
+        fmt_lines = rng.sample(fmt_lines, 2500)
+    for ln in fmt_lines:
+        add("format", ln)
+    # flags a conversion does not take (Lua 5.4 refuses them, some are undefined in C), malformed and over-long specifications
+    for _ in range(ctx.scale(400, 4000)):
+        cv = rng.choice("diuoxXcs")
+        spec = "%" + "".join(rng.choice("-+ #0") for _ in range(rng.randint(0, 3))) + rng.choice(widths) + rng.choice(precs) + cv
+        if cv == "s":
+            add("format", "fmts %s %s" % (X(spec), X(rng.choice([b"", b"ab", b"a\x00b", b"q" * 120]))))
+        else:
+            add("format", "fmti %s %d" % (X(spec), rng.choice(ivals)))
+    for spec in ["%", "%5", "%5%", "%q", "%z", "%ld", "%lld", "%hd", "%100d", "%.100d", "%1.123d", "%012d", "%-----5d", "%------5d", "%--------------------d",
+                 "%---------------------d", "%5-3d", "%.-3d", "%..3d", "%5.5.5d", "%*d", "%p", "%n", "%F", "%\x00d", "abc%", "%%", "100%%", "%%%d%%", "a\x00b%dc"]:
+        add("format", "fmti %s %d" % (X(spec), 42))
+        add("format", "fmt0 %s" % X(spec))
+    for f2 in ["%d and %d", "%5d|%-5d|", "%x%X", "%c%c", "%d%%%d", "%s=%d"]:
+        for _ in range(6):
+            add("format", "fmtii %s %d %d" % (X(f2), rng.choice(ivals), rng.choice(ivals)))
+    for f2, k in [("%d:%s", "fmtis"), ("%5.3d[%-8.2s]", "fmtis"), ("%c%s%%", "fmtis"), ("%s:%d", "fmtsi"), ("%10s|%+d", "fmtsi"), ("%.3s%x", "fmtsi")]:
+        for sv in (b"", b"abc", b"hello world", b"w" * 130):
+            v = rng.choice(ivals)
+            add("format", ("%s %s %d %s" % (k, X(f2), v, X(sv))) if k == "fmtis" else ("%s %s %s %d" % (k, X(f2), X(sv), v)))
+    # float conversions: differential only (the model declines); integers given to float conversions and floats given to %d
+    for spec in ["%f", "%e", "%g", "%a", "%5.2f", "%-12.3e", "%+.0f", "%#.3g", "% 010.4f", "%.99f", "%99.99f", "%E", "%G", "%A"]:
+        for v in (0, 1, -1, 255, 2**53 + 1, MAXINT, MININT):
+            add("format", "fmti %s %d" % (X(spec), v))
+        for fv in (0.0, -0.0, 1.5, -2.25, 1e15, 1e16, 1e100, 123456.789, 5e-324, float("inf"), float("-inf")):
+            add("format", "fmtf %s %s" % (X(spec), F(fv)))
+    for fv in (3.0, -0.0, 3.5, 2.0**53, 2.0**63, -2.0**63, 1e100, float("inf"), float("nan"), 0.5, -7.0):
+        for spec in ("%d", "%5d", "%x", "%c", "%i"):
+            add("format", "fmtf %s %s" % (X(spec), F(fv)))
     for k, fmt in enumerate(UNPACK_FORMATS, 1):
         m = re.match(r"^[<>]([iI])(\d+)$", fmt)
         datas = []
@@ -538,6 +595,29 @@ def cls_pack_unsigned_signext(a, lua, nel):
     return bool(m) and int(m.group(1)) > 8 and int(a[2]) < 0
 
 
+def _is_fmt(a):
+    return a[0] in ("fmt0", "fmti", "fmtii", "fmts", "fmtis", "fmtsi", "fmtf")
+
+
+def cls_format_spec_unchecked(a, lua, nel):
+    return _is_fmt(a) and lua.startswith("!error") and "invalid conversion specification" in lua and not nel.startswith("!")
+
+
+def cls_format_float_as_int(a, lua, nel):
+    return a[0] == "fmtf" and lua.startswith("!error") and "number has no integer representation" in lua and not nel.startswith("!")
+
+
+def cls_format_s_zeros(a, lua, nel):
+    return _is_fmt(a) and lua.startswith("!error") and "string contains zeros" in lua and not nel.startswith("!")
+
+
+def cls_format_item_too_long(a, lua, nel):
+    # the item does not fit MAX_ITEM = 128: the port commits the length snprintf would have written
+    if not (a[0] == "fmtf" and lua.startswith("x") and nel.startswith("x") and len(lua) == len(nel) and len(lua) > 2 * 127):
+        return False
+    return nel[1:1 + 2 * 127] == lua[1:1 + 2 * 127] and set(nel[1 + 2 * 127:]) <= {"0"}
+
+
 KNOWN_CLASSES = [
     # key (= the witness case line), class predicate, needs_asan
     ("gmatch x616263 x782a", cls_gmatch_lastmatch, False),
@@ -557,6 +637,10 @@ KNOWN_CLASSES = [
     ("unpack 87 x00 9223372036854775807", cls_unpack_z_init, False),
     ("utf8offset2 x 1", cls_utf8offset_empty, False),
     ("pack1 x3c4939 -1", cls_pack_unsigned_signext, False),
+    ("fmti x252364 5", cls_format_spec_unchecked, False),
+    ("fmtf x2564 f400c000000000000", cls_format_float_as_int, False),
+    ("fmts x25352e3273 x61006263", cls_format_s_zeros, False),
+    ("fmtf x252e393966 f54b249ad2594c37d", cls_format_item_too_long, False),
 ]
 
 
@@ -706,13 +790,25 @@ def correspond(ctx):
     reported = 0
     failing = []
     voiced = {}
+    spec_stats = {"checked": 0, "mismatch": 0}
 
     def handle(line, lua, nel, mod, tag=""):
         nonlocal n_model_mismatch, reported
         a = line.split()
         per_op[a[0]] = per_op.get(a[0], 0) + 1
+        spec = None
+        if " || " in mod:                 # the model driver also prints the Coq transcription of Lua (the SPEC side of the theorems)
+            mod, spec = mod.split(" || ", 1)
         if mod != "?":
             voiced[a[0]] = voiced.get(a[0], 0) + 1
+        if spec is not None and not tag:
+            spec_stats["checked"] += 1
+            if not ((spec == "!error" and lua.startswith("!error")) or spec == lua):
+                spec_stats["mismatch"] += 1
+                if spec_stats["mismatch"] <= 3:
+                    ctx.violation("spec-mismatch:%s" % a[0], "correspondence",
+                                  "the Coq transcription of Lua's %s does not agree with the reference interpreter on '%s': transcription %s, interpreter %s" % (a[0], line, spec[:80], lua[:80]),
+                                  detail={"case": line, "spec": spec, "reference_lua": lua, "no_longer_checks": "spec stream C13/%s" % a[0]}, failing_input=False)
         st, why = verdict(a, lua, nel)
         stats[st] += 1
         if nel.startswith("!"):
@@ -772,6 +868,8 @@ def correspond(ctx):
                          "attributed_to_known_finding": attributed},
         "oracle_failures": stats["FAIL"],
         "model_mismatches": n_model_mismatch,
+        "spec_voice_checked_against_interpreter": spec_stats["checked"],
+        "spec_voice_mismatches": spec_stats["mismatch"],
         "port_undefined_where_lua_defined": stats["undefined"],
         "traces_validated_against_impl": len(cases),
         "unproved": UNPROVED,
